@@ -307,13 +307,14 @@ inductive Err where
   | initNoName    -- ValueError, GraphView.__init__ (_core.py 4164-4166)
   | cloneOuter    -- RuntimeError wrapping ValueError, _cloner.py 168-178
   | cloneOutput   -- RuntimeError wrapping KeyError, _cloner.py 268-270
+  | cloneOwned    -- RuntimeError wrapping ValueError of the `Graph(...)` constructor, _graph_containers.py 196-205, 243-248, 285-290, 325-328
 deriving Repr, DecidableEq
 
 def Err.pyClass : Err → String
   | .notOwned | .nameNotFound | .noOutputs | .unbounded | .initNoName => "ValueError"
   | .noParent => "AssertionError"
   | .sortKey => "KeyError"
-  | .cloneOuter | .cloneOutput => "RuntimeError"
+  | .cloneOuter | .cloneOutput | .cloneOwned => "RuntimeError"
 
 /-- `node_index[n]` for `node_index = {node: idx for idx, node in enumerate(graph)}` (extractor 65): a dict
     comprehension keeps the value of the LAST pair with a given key, so a node that a `GraphView` lists
@@ -503,6 +504,92 @@ def extract (W : World) (T : Target) (ins outs : List Arg) : Except Err View :=
             | .error e => .error e
             | .ok _ => .ok { inputs := inputVals, outputs := outputVals, nodes := nodes, inits := inits }
 
+/-! ## the clone of the view with the ownership checks of the `Graph(...)` constructor (follow-up round)
+
+`_clone_graph` (_cloner.py 336-362) ends with `Graph(input_values, output_values, nodes=, initializers=)` on the
+CLONES, and the containers refuse a value whose `_graph` is already another graph (`GraphInputs._check_value`,
+`GraphOutputs._check_value`, `GraphInitializers._check_value`: _graph_containers.py 196-205, 243-248, 285-290)
+and an input / initializer that a node produces (199-205, 325-328).  A clone's `_graph` is set when a finished
+(nested) graph lists it as input, output or initializer.  Which clone object a source value currently maps to
+matters: `clone_node` binds a NEW value for every output (`self._value_map[output] = new_output`) even when the
+key is already bound, while the input / initializer lists of a graph are taken before its nodes are cloned and
+its output list after.  A clone is identified here by (source value, generation): generation 0 is the value
+made by `_clone_or_get_value`, generation k the value made by the k-th clone of a node that outputs it. -/
+
+structure CSt where
+  /-- keys of `_value_map`, exactly as in `cloneG` -/
+  m : List VId := []
+  /-- every node output cloned so far, with repeats -/
+  outs : List VId := []
+  /-- the clones that a finished graph lists (their `_graph` is set) -/
+  owned : List (VId × Nat) := []
+deriving Repr
+
+/-- the clone a bound source value currently maps to -/
+def CSt.cur (s : CSt) (v : VId) : VId × Nat := (v, s.outs.count v)
+
+mutual
+  def cloneGO (s : CSt) : GraphT → Except Err CSt
+    | .mk _ ins inits outs ns =>
+      let insC := ins.map s.cur
+      let initsC := inits.map s.cur
+      match cloneNsO { s with m := s.m ++ ins ++ inits } ns with
+      | .error e => .error e
+      | .ok s2 =>
+        if outs.all (fun v => s2.m.contains v) then
+          let outsC := outs.map s2.cur
+          if insC.any (fun c => s2.owned.contains c || c.2 != 0) || outsC.any (fun c => s2.owned.contains c) ||
+              initsC.any (fun c => s2.owned.contains c || c.2 != 0) then .error .cloneOwned
+          else .ok { s2 with owned := s2.owned ++ insC ++ outsC ++ initsC }
+        else .error .cloneOutput
+  def cloneNsO (s : CSt) : List NodeT → Except Err CSt
+    | [] => .ok s
+    | n :: ns =>
+      match cloneNO s n with
+      | .error e => .error e
+      | .ok s' => cloneNsO s' ns
+  def cloneNO (s : CSt) : NodeT → Except Err CSt
+    | .mk ins outs bs =>
+      if (ins.filterMap id).all (fun v => s.m.contains v) then
+        match cloneGsO s bs with
+        | .error e => .error e
+        | .ok s' => .ok { s' with m := s'.m ++ outs, outs := s'.outs ++ outs }
+      else .error .cloneOuter
+  def cloneGsO (s : CSt) : List GraphT → Except Err CSt
+    | [] => .ok s
+    | g :: gs =>
+      match cloneGO s g with
+      | .error e => .error e
+      | .ok s' => cloneGsO s' gs
+end
+
+/-- `extract` as the code runs it: the same pipeline with the clone stage that also performs the ownership
+    checks of the `Graph(...)` constructors (`cloneGO`).  `extract` above is this function without those checks
+    (`C18_extract_owned`: same result whenever this one returns, same error unless this one raises `cloneOwned`). -/
+def extractO (W : World) (T : Target) (ins outs : List Arg) : Except Err View :=
+  let m := valueMapping W T
+  match checkArgs W T m (ins ++ outs) with
+  | .error e => .error e
+  | .ok () =>
+    let inputVals := ins.map (resolveArg m)
+    let outputVals := outs.map (resolveArg m)
+    match outputVals with
+    | [] => .error .noOutputs
+    | o0 :: _ =>
+      match W.graphOf o0 with
+      | none => .error .noParent
+      | some parent =>
+        match findSubgraph W (T.kind == Kind.function) T.nodes inputVals outputVals parent with
+        | .error e => .error e
+        | .ok (nodes, inited) =>
+          match viewInits W inited [] with
+          | .error e => .error e
+          | .ok im =>
+            let inits := im.map (·.2)
+            match cloneGO {} (.mk 0 inputVals inits outputVals (nodes.map W.nodeD)) with
+            | .error e => .error e
+            | .ok _ => .ok { inputs := inputVals, outputs := outputVals, nodes := nodes, inits := inits }
+
 /-- extractor, post-processing of the clone (D153): the boundary inputs whose producer is an extracted node.
     The clone produces them a second time; their consumers are rewired to the graph input and the recomputed
     output is renamed, so in the extracted graph these values are never overwritten. -/
@@ -593,6 +680,32 @@ def nodupB : List Nat → Bool
   | [] => true
   | x :: xs => !xs.contains x && nodupB xs
 
+mutual
+  /-- decidable hypothesis of `C18_clone_stage_C13`: no node output is already a key of the value map when its
+      node is cloned (the map threaded as `cloneG` does) and a node lists an output once.  Where this fails the
+      cloner binds a second clone for the key (the D153 shape: a boundary input that a kept node produces) and
+      C13's scope walker makes no claim. -/
+  def nrGB (m : List VId) : GraphT → Bool
+    | .mk _ ins inits _ ns => nrNsB (m ++ ins ++ inits) ns
+  def nrNsB (m : List VId) : List NodeT → Bool
+    | [] => true
+    | n :: ns =>
+      nrNB m n && (match cloneN m n with
+        | .ok m1 => nrNsB m1 ns
+        | .error _ => true)
+  def nrNB (m : List VId) : NodeT → Bool
+    | .mk _ outs bs =>
+      nrGsB m bs && nodupB outs && (match cloneGs m bs with
+        | .ok m1 => outs.all (fun o => !m1.contains o)
+        | .error _ => true)
+  def nrGsB (m : List VId) : List GraphT → Bool
+    | [] => true
+    | b :: bs =>
+      nrGB m b && (match cloneG m b with
+        | .ok m1 => nrGsB m1 bs
+        | .error _ => true)
+end
+
 def topoSortedB (W : World) (p : GId) : List NId → Bool
   | [] => true
   | n :: rest =>
@@ -616,10 +729,30 @@ def scopeB (W : World) (fn : Bool) (I O : List VId) (p : GId) (ns : List NId) : 
   (walk W p (walkInit W fn I O)).valsV.all (fun u =>
     I.contains u || ns.all (fun n => (W.nodeD n).bodies.all (fun b => !(defsG b).contains u)))
 
+/-- every initializer has a name (`GraphView.__init__` raises otherwise; cannot be violated through the public
+    API since D07) -/
+def initNamedB (W : World) : Bool :=
+  (List.range W.vals.length).all (fun u => !W.isInit u || !((W.val u).name == ""))
+
+/-- every required value is covered: a value the walk visits is a boundary input, has a producer, or is an
+    initializer (decidable form of `Covered`) -/
+def coveredB (W : World) (fn : Bool) (I O : List VId) (p : GId) : Bool :=
+  (walk W p (walkInit W fn I O)).valsV.all (fun u => I.contains u || (W.prod u).isSome || W.isInit u)
+
+/-- every required node is a node of the graph-like object -/
+def neededInB (W : World) (fn : Bool) (g : List NId) (I O : List VId) (p : GId) : Bool :=
+  (walk W p (walkInit W fn I O)).nodesV.all (fun n => g.contains n)
+
 /-- initializer names are pairwise distinct -/
 def initNamesB (W : World) : Bool :=
   (List.range W.vals.length).all (fun u => (List.range W.vals.length).all (fun u' =>
     !(W.isInit u && W.isInit u' && (W.val u).name == (W.val u').name) || u == u'))
+
+/-- the hypotheses of `C18_extract_succeeds_iff` (decidable form of `RegionHyp`) -/
+def regionHypB (W : World) (T : Target) (p : GId) (I O : List VId) : Bool :=
+  sourceOKB W p T.nodes && T.nodes.all (bodiesOKB W p) &&
+  scopeB W (T.kind == Kind.function) I O p (walk W p (walkInit W (T.kind == Kind.function) I O)).nodesV &&
+  initNamedB W && initNamesB W
 
 /-- the owner of `v` is one of the graphs on `chain` (the graph of the use and its ancestors below the
     analysed root), or it is none of the graphs `all` nested in the analysed root -/
